@@ -189,6 +189,10 @@ def opsTrav (op : String) (a : List String) : Option String :=
     match latLngToCellArgs r la.isFinite ln.isFinite with
     | some e => pure ("err " ++ toString e.code)
     | none => pure "skip"
+  | "polyaccept", [mode, a, b, c, d, e, f, g, h] => do
+    let mode ← mode.toNat?
+    let t := fun (x : String) => x == "1"
+    pure ("ok " ++ b2s (acceptTarget mode ⟨t a, t b, t c, t d, t e, t f, t g, t h⟩))
   | "diskmap", [h, k] => do
     -- map-level algorithm (the subject of the BFS theorem), canonical output: sorted (cell, distance) pairs
     let h ← parseH h; let k ← k.toNat?
